@@ -3,6 +3,8 @@
 CAP (strict) over spiftool_split, spif_tok_eval, spiftool_get_word, spiftool_get_pword and spiftool_num_words: the
 scan cursor stays at or before the terminator on every path (including a trailing backslash, a quote inside the other
 kind of quote, an explicit delimiter set), every token buffer write is in bounds, and every scanner loop advances.
+S3: spiftool_split and spif_tok_eval agree on the per-character step for every (current, next, quote state) configuration
+(STEPEQ: finite abstract evaluation over character classes; default quote/escape characters of the tok class).
 S2: the word loops of get_word/get_pword/num_words carry only their cursors and counters from word to word (LOOPSTATE).
 The token lists themselves (the grammar) are not decided."""
 from .. import facts, expr as X, loopstate
@@ -28,6 +30,8 @@ def run(tier="quick"):
                 explanation="CAP (strict, with loop-progress obligations) over the scanners: cursor-vs-terminator discipline and token-buffer bounds")
     chk.rule("B1", "cursor never passes the terminator; token buffer writes in bounds")
     chk.rule("P1", "every scanner loop advances")
+    chk.rule("S3", "spiftool_split and the tok scanner take the same per-character step (emission, advance, quote state) in every configuration")
+    chk.rule("S4", "each scanner's per-character step is the one the quoting grammar prescribes")
     chk.rule("S2", "word loops carry only their header variables from word to word (no stale delimiter/quote state)")
     prog = facts.extract()
     fns = []
@@ -65,6 +69,83 @@ def run(tier="quick"):
         for lp in outer:
             nitem += 1
             loopstate.check_item_loop(chk, "S2", f, lp, "word")
+    # S3: split and tok agree on the per-character step (STEPEQ: finite abstract evaluation over character classes)
+    from .. import stepeq
+    sib = []
+    for nm in ("spiftool_split", "spif_tok_eval"):
+        f = prog.fn(nm)
+        if f is None:
+            raise facts.AnalysisBroken("%s not found" % nm)
+        r = stepeq.find_token_loop(f)
+        if r is None:
+            raise facts.AnalysisBroken("token loop of %s not identified" % nm)
+        consts = {}
+        for g in f.unit.functions.values():
+            if "_init" not in g.name or g.body is None:
+                continue
+            for x in walk(g.body):
+                if x.get("k") == "assign" and x.get("op") == "=" and X.strip(x["ch"][0]).get("k") == "member" and X.const_val(x["ch"][1]) is not None \
+                        and (X.strip(x["ch"][0]).get("tw") or 0) == 8:
+                    nm_ = X.strip(x["ch"][0])["n"]
+                    v_ = X.const_val(x["ch"][1])
+                    consts[nm_] = v_ if consts.get(nm_, v_) == v_ else None
+        consts = {k_: v_ for k_, v_ in consts.items() if v_ is not None}
+        sib.append((f, r, stepeq.Step(f, r[1], r[2], consts)))
+    ndec = nundec = 0
+    diffs = []
+    gdiffs = []
+    configs = [("step", cur, nxt, qu) for cur in stepeq.CLASSES for nxt in ("NUL",) + stepeq.CLASSES for qu in ("NUL", "DQ", "SQ")] + \
+              [("cont", cur, None, qu) for cur in ("NUL",) + stepeq.CLASSES for qu in ("NUL", "DQ", "SQ")]
+    for cfg_ in configs:
+        outs = []
+        try:
+            for f, r, st_ in sib:
+                outs.append(st_.run(r[0], cfg_[1], cfg_[2], cfg_[3]) if cfg_[0] == "step" else st_.continues(r[0], cfg_[1], cfg_[3]))
+        except stepeq.Undecided as e:
+            nundec += 1
+            chk.note("S3: configuration %s not decided: %s" % (cfg_, e))
+            continue
+        ndec += 1
+        if outs[0] != outs[1]:
+            diffs.append((cfg_, outs))
+        want = stepeq.grammar_step(cfg_[1], cfg_[2], cfg_[3]) if cfg_[0] == "step" else stepeq.grammar_continues(cfg_[1], cfg_[3])
+        for (f, r, st_), got in zip(sib, outs):
+            if got != want:
+                gdiffs.append((f, r, cfg_, got, want))
+    NAMES = {"DQ": "a double quote", "SQ": "a single quote", "ESC": "a backslash", "DELIM": "a delimiter", "OTHER": "an ordinary character", "NUL": "the terminator"}
+    f0, r0, _ = sib[0]
+    f1, r1, _ = sib[1]
+    if diffs:
+        for cfg_, outs in diffs[:4]:
+            if cfg_[0] == "step":
+                what = "at %s followed by %s, %s: %s emits %s, advances %d, quote -> %s; %s emits %s, advances %d, quote -> %s" % (
+                    NAMES[cfg_[1]], NAMES[cfg_[2]], "outside quotes" if cfg_[3] == "NUL" else "inside %s quotes" % ("double" if cfg_[3] == "DQ" else "single"),
+                    f0.name, list(outs[0][0]), outs[0][1], outs[0][2], f1.name, list(outs[1][0]), outs[1][1], outs[1][2])
+            else:
+                what = "at %s %s: %s %s the token, %s %s it" % (
+                    NAMES[cfg_[1]], "outside quotes" if cfg_[3] == "NUL" else "inside quotes", f0.name, "continues" if outs[0] else "ends",
+                    f1.name, "continues" if outs[1] else "ends")
+            chk.ob("S3", f0.name, "step-agreement:%s/%s/%s" % (cfg_[1], cfg_[2], cfg_[3]), False, loc=f0.loc(r0[0]),
+                   detail="the two scanners disagree on the per-character step " + what)
+    else:
+        chk.ob("S3", f0.name, "step-agreement", True, loc=f0.loc(r0[0]),
+               proof="%d character/look-ahead/quote configurations evaluated abstractly in both scanners: same emission, advance, quote state and continuation" % ndec)
+    for f in (f0, f1):
+        mine = [g for g in gdiffs if g[0] is f]
+        if mine:
+            _, r, cfg_, got, want = mine[0]
+            chk.ob("S4", f.name, "step-grammar:%s/%s/%s" % (cfg_[1], cfg_[2], cfg_[3]), False, loc=f.loc(r[0]),
+                   detail="%s departs from the quoting grammar at %s%s, %s: it %s where the grammar %s" % (
+                       f.name, NAMES[cfg_[1]], (" followed by " + NAMES[cfg_[2]]) if cfg_[2] else "",
+                       "outside quotes" if cfg_[3] == "NUL" else "inside %s quotes" % ("double" if cfg_[3] == "DQ" else "single"),
+                       ("emits %s, advances %d, quote -> %s" % (list(got[0]), got[1], got[2])) if cfg_[0] == "step" else ("continues the token" if got else "ends the token"),
+                       ("emits %s, advances %d, quote -> %s" % (list(want[0]), want[1], want[2])) if cfg_[0] == "step" else ("continues" if want else "ends")))
+        else:
+            chk.ob("S4", f.name, "step-grammar", True, loc=f.loc(f.body),
+                   proof="every decided configuration takes the step the grammar prescribes (quotes group and are removed, a backslash makes a "
+                         "following delimiter or the closing quote literal, the rest is copied)")
+    chk.count("step_configurations_decided", ndec, floor=100)
+    chk.count("step_configurations_undecided", nundec)
     chk.count("word_loops", nitem, floor=3)
     chk.count("scanners", n, floor=5)
     chk.count("loops_with_progress_obligation", nloops, floor=12)
